@@ -20,7 +20,28 @@ constexpr int MAXOPS = 6;
 struct Pair {
   int a = 0, b = 0;
   int n = 0;
+  int init = 0; // marker of the initial content handed to the constructor
   int log[MAXU] = {};
+  Pair() = default;
+  Pair(const Pair&) = default;
+  Pair& operator=(const Pair&) = default;
+  // observable moved-from state (like a container that is empty after it was moved from)
+  Pair(Pair&& o) noexcept : a(o.a), b(o.b), n(o.n), init(o.init) {
+    memcpy(log, o.log, sizeof log);
+    o.a = o.b = -2;
+    o.init = -1;
+    o.n = 0;
+  }
+  Pair& operator=(Pair&& o) noexcept {
+    if (this != &o) {
+      a = o.a, b = o.b, n = o.n, init = o.init;
+      memcpy(log, o.log, sizeof log);
+      o.a = o.b = -2;
+      o.init = -1;
+      o.n = 0;
+    }
+    return *this;
+  }
 };
 
 struct Flags { // harness-side view of who is inside which instance (static storage: never race-checked itself)
@@ -72,6 +93,7 @@ struct LRHarness {
   int nwriters = 1, nreaders = 1;
   vh::hvec<LOp> hist[MAXT];
   int next_id = 1;
+  int ctor_mode = 0, expect_init = 0, initial_value = 0;
 
   void do_update(vh::hvec<LOp>& h) {
     if (next_id >= MAXU) return;
@@ -108,8 +130,11 @@ struct LRHarness {
     r.kind = L_READ;
     vrt::op_begin(1);
     vrt::stamp(&r.inv);
-    r.id = lr->read([](const Pair& p) {
+    const int want_init = expect_init;
+    r.id = lr->read([want_init](const Pair& p) {
       int i = F.idx(&p);
+      if (p.init != want_init)
+        vrt::fail("initial_state_lost", "a read functor runs on an instance whose initial content marker is %d instead of %d (instance %d)", p.init, want_init, i);
       if (F.writer_in[i]) vrt::fail("reader_entered_instance_being_modified", "a read functor runs on instance %d while an update functor is modifying it", i);
       F.readers_in[i]++;
       if (F.active_updates > 0) F.reader_during_update = true;
@@ -144,7 +169,30 @@ struct LRHarness {
       }
       vrt::desc("\n");
     }
-    lr = new left_right<Pair>(Pair{});
+    // which constructor, and whether the initial content is non-trivial (last draw)
+    ctor_mode = (int)vrt::choose(4);
+    if (vrt::want_desc())
+      vrt::desc("constructor: %s\n", ctor_mode == 1 ? "left_right(source) with non-trivial initial content"
+                                     : ctor_mode == 2 ? "left_right(left, right) with non-trivial initial content"
+                                     : ctor_mode == 3 ? "left_right()" : "left_right(T{})");
+    {
+      Pair src;
+      if (ctor_mode == 1 || ctor_mode == 2) {
+        src.a = src.b = 500;
+        src.init = 777;
+        expect_init = 777;
+        initial_value = 500;
+      }
+      if (ctor_mode == 1)
+        lr = new left_right<Pair>(src);
+      else if (ctor_mode == 2) {
+        Pair src2 = src;
+        lr = new left_right<Pair>(std::move(src), std::move(src2));
+      } else if (ctor_mode == 3)
+        lr = new left_right<Pair>();
+      else
+        lr = new left_right<Pair>(Pair{});
+    }
     vrt::concurrent_phase(true);
     {
       vh::Threads th;
@@ -179,12 +227,16 @@ struct LRHarness {
       vrt::fail("update_not_applied_once", "instance logs have %d and %d entries for %d updates", copies[0].n, copies[1].n, next_id - 1);
     if (memcmp(copies[0].log, copies[1].log, sizeof(int) * (size_t)copies[0].n) != 0)
       vrt::fail("instances_diverge", "the two instances applied the updates in a different order");
+    if (copies[0].init != expect_init || copies[1].init != expect_init)
+      vrt::fail("initial_state_lost", "initial content markers of the two instances are %d and %d, expected %d (constructor mode %d)", copies[0].init, copies[1].init,
+                expect_init, ctor_mode);
 
     vh::hvec<LOp> all;
     for (int t = 0; t < MAXT; ++t)
       for (auto& o : hist[t]) all.push_back(o);
     LSpec spec;
     LSpec::State init;
+    init.v = initial_value;
     lin::Checker<LSpec> chk(spec, all);
     if (!chk.run(init)) {
       vrt::desc("history (not linearizable):\n");
